@@ -643,6 +643,16 @@ def sparse_const():
         env = Env(c, (2, 3))
         return env, {"x": env.x}, {"x": env.vals(env.x)}
     out += _run("rsome.lp:Affine.__mul__", "x(2,3) * scipy.sparse", se2, lambda o: o["x"] * rsp.csr_matrix(M), lambda v: v["x"] * M)
+    # bi-affine expressions times a SciPy sparse matrix (element-wise, as NumPy / SciPy define `*` for a dense operand): square and
+    # non-square shapes, both operand orders
+    for sx, Ms in (((2, 2), np.array([[1.0, 2.0], [0.0, 3.0]])), ((2, 3), M)):
+        def se3(c, sx=sx):
+            env = Env(c, sx, None, sx)
+            e = env.x * env.z + env.x
+            ev = env.vals(env.x) * env.vals(env.z) + env.vals(env.x)
+            return env, {"e": e}, {"e": ev}
+        out += _run("rsome.lp:RoAffine.__mul__", f"(x*z+x){sx} * scipy.sparse", se3, lambda o, Ms=Ms: o["e"] * rsp.csr_matrix(Ms), lambda v, Ms=Ms: v["e"] * Ms)
+        out += _run("rsome.lp:RoAffine.__rmul__", f"scipy.sparse * (x*z+x){sx}", se3, lambda o, Ms=Ms: o["e"].__rmul__(rsp.csr_matrix(Ms)), lambda v, Ms=Ms: Ms * v["e"])
     out += _run("rsome.lp:Affine.__add__", "x(2,3) + ndarray int dtype", se2, lambda o: o["x"] + np.array([[1, 2, 3], [4, 5, 6]]),
                 lambda v: v["x"] + np.array([[1, 2, 3], [4, 5, 6]]))
     return out
